@@ -30,7 +30,7 @@ Definition sres_eqb (a b : sres) : bool :=
   | RPut x, RPut y => option_eqb N.eqb x y
   | RPeers x, RPeers y => option_eqb (list_eqb N.eqb) x y
   | RPolicy x, RPolicy y => policy_eqb x y
-  | RHeads x, RHeads y => list_eqb nn_eqb x y
+  | RHeads x, RHeads y => list_eqb (fun a b => nn_eqb (fst a) (fst b) && bytes_eqb (snd a) (snd b)) x y
   | RNews x, RNews y => x =? y
   | RHashes x, RHashes y => list_eqb N.eqb x y
   | RNamespaces x, RNamespaces y => list_eqb nb_eqb x y
